@@ -238,3 +238,16 @@ func init() {
 		Runs: []Run{{Pkg: hp + "c18", Variant: "real"}, {Pkg: "cmd/age", Variant: "mainhook", Optional: true, Env: []string{"VERIF_HARNESS=c18cli", "VERIF_PROPERTY=C18"}}},
 	}
 }
+
+func init() {
+	specs["C16"] = &Spec{
+		Title: "Plugin client follows the protocol for every plugin behaviour",
+		Level: "model_checking",
+		LevelText: "Reference model of the recipient-v1 and identity-v1 client state machines (pure functions from UI capabilities and plugin messages to the expected replies and final result). Every conversation of <= 3/4 plugin messages over 27 message kinds (each command valid and in malformed variants, commands of the other machine, unknown commands, grease, five framing errors, done; end of stream after every prefix and before phase 1) is executed against the real plugin.Recipient / plugin.Identity (and Identity.Recipient()) talking to a scripted plugin process over real pipes; conversations with UI commands are run under every answer of that callback. The transcript recorded by the plugin must be a well-formed, complete phase 1 followed by exactly the model's replies, and the Go result must be the model's.",
+		LevelNote: "a plugin that keeps its pipes open and stays silent is out of scope (the property speaks of a plugin that stops); a 60 s watchdog per conversation only guards the harness",
+		Technique: "explicit-state protocol model with exhaustive depth-bounded enumeration of conversations, every model trace replayed against the implementation over real sub-process pipes",
+		Rule: "states = terminal model states reached per machine; transitions = plugin messages delivered; traces_validated_against_impl = conversations executed against the real client and compared reply by reply",
+		Assumptions: commonAssume,
+		Runs: []Run{{Pkg: hp + "c16", Variant: "real", NeedBins: []NeedBin{{Env: "VERIF_PLUGINSIM", Variant: "real", Pkg: "internal/zzverif/pluginsim"}}}},
+	}
+}
